@@ -37,7 +37,29 @@
      SignInjective    a signature term determines its key and its message
      PubInjective     a public key determines the private key
      PeerIdInjective  a peer ID determines the public key (identity multihash for
-                      small keys, collision-free sha2-256 for RSA) *)
+                      small keys, collision-free sha2-256 for RSA)
+   A symbolic signature value stands for the CLASS of byte strings the real
+   verifier takes for one signature (ECDSA as implemented by go-libp2p accepts
+   trailing bytes after the DER value and (r, n-s)); with that reading
+   VerifyUnique is about classes, and the harnesses name such bytes as the
+   signature they verify as.
+
+   HOW A CLIENT (C03, C05, C18) USES THIS FILE
+   * model file: `Section` with Variables privkey pubkey sigt peerid, pub, sign,
+     verify, peer_id (and peerid_eqb : peerid -> peerid -> bool for Go's `==` on
+     peer.ID); functions written against [envelope], [seal], [validate], [consume]
+     (wire = option envelope: the protobuf layer is not modelled).  After `End`
+     declare the type arguments implicit (`Arguments f {pubkey sigt} ...`).
+   * proofs file: `Hypothesis VS : VerifySign pub sign verify.` etc. inside a Section;
+     use [validate_iff] (exact acceptance condition), [validate_signed_iff],
+     [validate_altered_one_field] / [validate_altered_*], [validate_other_domain],
+     [unsigned_injective].  Each lemma ends up with only the laws its proof used.
+   * case checkers: instantiate with [Sym.pub Sym.sign Sym.verify Sym.peer_id
+     Sym.peerid_eqb]; signatures in cases are [Sym.Sig k m] / [Sym.Junk n]
+     ([Sym.sig_eqb] compares them).
+   * harness side: package verif/harness/keypool builds the deterministic pool of real
+     keys (all four libp2p key types) and maps real keys / peer IDs / unknown
+     signature bytes to the indices the symbolic instance uses. *)
 From Lib Require Import Bytes Varint.
 From Coq Require Import Lia ZifyN ZifyNat ZifyBool String Ascii.
 Ltac Zify.zify_post_hook ::= Z.div_mod_to_equations.
